@@ -11,7 +11,7 @@ use std::sync::{Arc, Mutex};
 
 pub const META: Meta = Meta {
     level: "exploration",
-    rule: "all cases prior-state {idle, dialing P1, connected P1, connected+dialing P1, connected P2, pending inbound, dialing P1 with override_role} x PeerCondition(4) x dial shape {peer+explicit address list (all sequences of length 0..3 over {A1,A2,AL=listen address,AX=unsupported}), peer only, unknown peer + 1 address} x behaviour-provided list (all sequences of length 0..2 over {A1,A2,AL}) x extend flag x listening on AL or not; one Swarm::dial per case on a fresh real Swarm. Non-trivial = distinct cases that were rejected, or accepted with at least one address filtered out (duplicate or listen address).",
+    rule: "all cases prior-state {idle, dialing P1, connected P1, connected+dialing P1, connected P2, pending inbound, dialing P1 with override_role} x PeerCondition(4) x dial shape {peer+explicit address list (all sequences of length 0..3 over {A1,A2,AL=listen address,AX=unsupported}), peer only, unknown peer + 1 address} x behaviour-provided list (all sequences of length 0..2 over {A1,A2,AL}) x extend flag x listening on AL or not (from the idle state also after listener histories in which another address expired / was announced and expired twice); one Swarm::dial per case on a fresh real Swarm. Non-trivial = distinct cases that were rejected, or accepted with at least one address filtered out (duplicate or listen address).",
     explanation: "Oracle: condition false => Err(DialPeerConditionFalse), exactly one DialFailure for that id, counters unchanged, no transport dial; accepted => the transport saw exactly the distinct non-listened addresses (first occurrence order), each once, each ending in /p2p/<peer> when a peer was given; nothing usable => NoAddresses with one DialFailure.",
     assumptions: &["addresses already carrying a /p2p suffix are outside the alphabet (the statement does not say how they compare)", "a single probe behaviour supplies the behaviour-provided addresses"],
 };
@@ -37,6 +37,12 @@ pub struct Case {
     provided: Vec<usize>,
     extend: bool,
     listening: bool,
+    /// listener event history before the dial (only with `listening`): 0 = NewAddress(AL);
+    /// 1 = then AddressExpired for an address the listener never announced; 2 = then
+    /// NewAddress(B), AddressExpired(B), AddressExpired(B) (expiry reported twice).
+    /// AL stays a listen address in all of them.
+    #[serde(default)]
+    listen_hist: u8,
 }
 
 fn cond(c: u8) -> PeerCondition {
@@ -57,6 +63,16 @@ fn run_case(c: &Case) -> Result<(String, bool), String> {
     if c.listening {
         let id = sys.swarm.listen_on(a(AL)).map_err(|e| format!("harness :: listen_on failed {e}"))?;
         sys.ctl.lock().unwrap().push_event(libp2p_core::transport::TransportEvent::NewAddress { listener_id: id, listen_addr: a(AL) });
+        let other = a(AL + 50);
+        let evs: Vec<bool> = match c.listen_hist {
+            0 => vec![],
+            1 => vec![false],
+            _ => vec![true, false, false],
+        };
+        for new in evs {
+            let ev = if new { libp2p_core::transport::TransportEvent::NewAddress { listener_id: id, listen_addr: other.clone() } } else { libp2p_core::transport::TransportEvent::AddressExpired { listener_id: id, listen_addr: other.clone() } };
+            sys.ctl.lock().unwrap().push_event(ev);
+        }
         sys.kick();
         sys.run(500);
     }
@@ -250,18 +266,22 @@ pub fn run(ctx: &Ctx) -> Outcome {
     let mut cases: Vec<Case> = Vec::new();
     for prior in 0..7u8 {
         for cnd in 0..4u8 {
-            for listening in [false, true] {
+            for (listening, listen_hist) in [(false, 0u8), (true, 0), (true, 1), (true, 2)] {
+                // the richer listener histories only from the idle prior state
+                if listen_hist > 0 && prior != 0 {
+                    continue;
+                }
                 let mut provided: Vec<Vec<usize>> = Vec::new();
                 mc::enumerate::sequences_upto(3, 2, |p| provided.push(p.to_vec()));
                 for prov in &provided {
                     // shape 1: peer only
-                    cases.push(Case { prior, cond: cnd, shape: 1, explicit: vec![], provided: prov.clone(), extend: true, listening });
+                    cases.push(Case { prior, cond: cnd, shape: 1, explicit: vec![], provided: prov.clone(), extend: true, listening, listen_hist });
                     mc::enumerate::sequences_upto(4, max_explicit, |e| {
                         for extend in [false, true] {
-                            cases.push(Case { prior, cond: cnd, shape: 0, explicit: e.to_vec(), provided: prov.clone(), extend, listening });
+                            cases.push(Case { prior, cond: cnd, shape: 0, explicit: e.to_vec(), provided: prov.clone(), extend, listening, listen_hist });
                         }
                         if e.len() == 1 && cnd == 0 {
-                            cases.push(Case { prior, cond: cnd, shape: 2, explicit: e.to_vec(), provided: prov.clone(), extend: false, listening });
+                            cases.push(Case { prior, cond: cnd, shape: 2, explicit: e.to_vec(), provided: prov.clone(), extend: false, listening, listen_hist });
                         }
                     });
                 }
